@@ -82,8 +82,11 @@ class CUSUM(StreamingDetector):
             self.sd_hat = np.std(self._stream[-self.burn_in :])
             self.reset()
 
+        prior_input = (self._input_cols, self._input_col_dim)
         X, _, _ = super()._validate_input(X, None, None)
         if len(X.shape) > 1 and X.shape[1] != 1:
+            # a rejected input must not constrain subsequent input
+            self._input_cols, self._input_col_dim = prior_input
             raise ValueError("CUSUM should only be used to monitor 1 variable.")
         super().update(X, None, None)
         self._stream.append(X)
